@@ -1,8 +1,9 @@
 #!/bin/bash
 # usage: runall.sh [tier]  -- runs every property's check in turn on the current tree; one line per property
 tier=${1:-quick}
-cd /verif
+L=${RUNALL_LOGDIR:-/tmp}
+cd "$(dirname "$0")"
 for p in C01 C02 C03 C04 C05 C06 C07 C08 C09 C10 C11 C12 C13 C14 C15 C16 C17 C18 C19 C20; do
-  timeout 7200 ./check $p --tier $tier > /tmp/runall_$p.log 2>&1; rc=$?
-  echo "$p exit=$rc kf=$(grep -c '^KNOWN-FINDING' /tmp/runall_$p.log) inc=$(grep -c '^INCONCLUSIVE' /tmp/runall_$p.log) $(tail -1 /tmp/runall_$p.log | cut -c1-220)"
+  timeout 7200 ./check $p --tier $tier > $L/runall_$p.log 2>&1; rc=$?
+  echo "$p exit=$rc kf=$(grep -c '^KNOWN-FINDING' $L/runall_$p.log) inc=$(grep -c '^INCONCLUSIVE' $L/runall_$p.log) $(tail -1 $L/runall_$p.log | cut -c1-220)"
 done
